@@ -1008,7 +1008,18 @@ def call_api(api, path, incdirs, timeout=8.0):
     outcome in ok / cpe / other / timeout, plus details.  Never raises."""
     import bt  # noqa: F401  (forces /repo)
     import barectf
+    import yaml
     res = {'api': api}
+    # number of YAML documents the front end loads during this call (its own schemas + the case's files): a flat
+    # document that makes it load hundreds of documents is recursing without bound (e.g. an undetected inclusion
+    # cycle), even when the interpreter's recursion limit ends up being reported as a configuration error
+    loads = [0]
+    yaml_load = yaml.load
+
+    def counting_load(*a, **k):
+        loads[0] += 1
+        return yaml_load(*a, **k)
+    yaml.load = counting_load
     old = signal.signal(signal.SIGALRM, _alarm)
     signal.setitimer(signal.ITIMER_REAL, timeout)
     try:
@@ -1048,10 +1059,24 @@ def call_api(api, path, incdirs, timeout=8.0):
             res['inner'] = innermost(exc.__traceback__)
             if isinstance(exc, (KeyboardInterrupt, SystemExit)):
                 res['exc_type'] = type(exc).__name__
+    except CaseTimeout:
+        # the alarm went off inside one of the handlers above (loaded machine)
+        res = {'api': api, 'outcome': 'timeout'}
     finally:
         signal.setitimer(signal.ITIMER_REAL, 0)
         signal.signal(signal.SIGALRM, old)
+        yaml.load = yaml_load
+    res['yaml_loads'] = loads[0]
     return res
+
+
+def call_api_confirmed(api, path, incdirs, timeout=8.0):
+    """call_api with a confirmation run: a timeout only counts when a second run with four times the time does not
+    finish either (the machine may be loaded)."""
+    r = call_api(api, path, incdirs, timeout=timeout)
+    if r['outcome'] == 'timeout':
+        r = call_api(api, path, incdirs, timeout=timeout * 4)
+    return r
 
 
 def write_case(dirpath, files):
